@@ -15,6 +15,9 @@
 //!   `cleanup`                                                        -> `ok` | `err:…` | `panic`   default cleanup of the last init'ed set
 //!   `clean <zc16|borsh> <normalize|refund|receive|close> <target> <arg|cached> <keep | value-hex>`
 //!        -> `<ok | err:… | panic> cpis=<log>`
+//!   `set <fr|rf> <normalize|refund|receive|close> <funder> <recipient> <target>`
+//!        -> `<ok | err:… | panic> cpis=<log>`   decode + derive-generated validate (caches funder AND
+//!        recipient, declaration order funder-first / recipient-first) + cached cleanup on `Account<Zc16>`
 //!   `world`                                                          -> `<key>=<lamports>,<owner>,<data>;…`
 use crate::{
     exec::{self, err_class},
@@ -370,6 +373,41 @@ fn run_clean(case: &mut Case, ty: &str, op: &str, tgt: usize, use_arg: bool, new
     format!("{} cpis={}", cls(r), log_str())
 }
 
+fn run_set_with<S>(infos: &[AccountInfo]) -> star_frame::Result<()>
+where
+    S: for<'a> AccountSetDecode<'a, ()> + AccountSetValidate<()> + AccountSetCleanup<()>,
+{
+    let mut ctx = Context::new(&PROGRAM_ID_STATIC);
+    let mut sl: &[AccountInfo] = infos;
+    let mut set = S::decode_accounts(unsafe { &mut *(&mut sl as *mut &[AccountInfo]) }, (), &mut ctx)?;
+    set.validate_accounts((), &mut ctx)?;
+    set.cleanup_accounts((), &mut ctx)
+}
+
+fn run_set(case: &mut Case, order: &str, op: &str, f: usize, r: usize, t: usize) -> String {
+    use crate::progs::sets::*;
+    case.freeze();
+    exec::install();
+    exec::take_log();
+    verif_hooks::RENT.set(Some(rent_of(case.rent)));
+    let w = case.world.as_ref().unwrap();
+    let infos: Vec<AccountInfo> = if order == "fr" { vec![*w.info(f), *w.info(r), *w.info(t)] } else { vec![*w.info(r), *w.info(f), *w.info(t)] };
+    let res = hx_common::catch(|| -> star_frame::Result<String> {
+        match (order, op) {
+            ("fr", "normalize") => run_set_with::<FrNormalize>(&infos)?,
+            ("fr", "refund") => run_set_with::<FrRefund>(&infos)?,
+            ("fr", "receive") => run_set_with::<FrReceive>(&infos)?,
+            ("fr", "close") => run_set_with::<FrClose>(&infos)?,
+            ("rf", "normalize") => run_set_with::<RfNormalize>(&infos)?,
+            ("rf", "refund") => run_set_with::<RfRefund>(&infos)?,
+            ("rf", "receive") => run_set_with::<RfReceive>(&infos)?,
+            _ => run_set_with::<RfClose>(&infos)?,
+        }
+        Ok("ok".into())
+    });
+    format!("{} cpis={}", cls(res), log_str())
+}
+
 // ------------------------------------------------------------------------------------ interpreter
 
 /// The real hash: `create_program_address` of seeds whose concatenation is `flat`.
@@ -518,6 +556,14 @@ pub fn exec_line(case: &mut Case, l: &str) -> String {
             };
             run_clean(case, ty, op, ti, use_arg, newval)
         }
+        ["set", order, op, fkey, rkey, tkey] => {
+            if !["fr", "rf"].contains(order) || !["normalize", "refund", "receive", "close"].contains(op) {
+                return bad();
+            }
+            let (Some(fk), Some(rk), Some(tk)) = (parse_key(fkey), parse_key(rkey), parse_key(tkey)) else { return bad() };
+            let (Some(f), Some(r), Some(t)) = (case.idx(&fk), case.idx(&rk), case.idx(&tk)) else { return bad() };
+            run_set(case, order, op, f, r, t)
+        }
         ["world"] => case.dump(),
         _ => bad(),
     }
@@ -663,10 +709,38 @@ fn parse_clean(l: &str) -> Option<CleanOp> {
     Some(CleanOp { op: t[2].into(), tgt: parse_key(t[3])? })
 }
 
+/// C13 oracle for one `set` op: the counterpart is the DECLARED funder (normalize / receive) or the
+/// DECLARED recipient (refund / close); the other declared account must keep its balance.
+fn oracle_set(rec: &mut Recorder, case_rent: (u64, u64), l: &str, ans: &str, before: &[AcctSpec], after: &[AcctSpec]) {
+    let t: Vec<&str> = l.split(' ').collect();
+    if t.len() != 6 {
+        return;
+    }
+    let (Some(f), Some(r), Some(tgt)) = (parse_key(t[3]), parse_key(t[4]), parse_key(t[5])) else { return };
+    let funder_op = t[2] == "normalize" || t[2] == "receive";
+    let (declared, bystander) = if funder_op { (f, r) } else { (r, f) };
+    if bystander != declared && bystander != tgt && find(before, &bystander).lamports != find(after, &bystander).lamports {
+        rec.fail("cleanup_pays_wrong_account", &format!("{l} -> {ans}: {} changed by {} although the declared counterpart is {}", khex(&bystander), find(after, &bystander).lamports as i128 - find(before, &bystander).lamports as i128, khex(&declared)));
+    }
+    oracle_clean_op(rec, case_rent, CleanOp { op: t[2].into(), tgt }, Some(declared), true, l, ans, before, after);
+}
+
 /// C13 oracle for one `clean` op.
-fn oracle_clean(rec: &mut Recorder, case_rent: (u64, u64), other: Option<Pubkey>, l: &str, ans: &str, before: &[AcctSpec], after: &[AcctSpec]) {
+fn oracle_clean(rec: &mut Recorder, case_rent: (u64, u64), other: Option<Pubkey>, cache_hit: bool, l: &str, ans: &str, before: &[AcctSpec], after: &[AcctSpec]) {
     let Some(op) = parse_clean(l) else { return };
+    oracle_clean_op(rec, case_rent, op, other, cache_hit, l, ans, before, after);
+}
+
+fn oracle_clean_op(rec: &mut Recorder, case_rent: (u64, u64), op: CleanOp, other: Option<Pubkey>, cache_hit: bool, l: &str, ans: &str, before: &[AcctSpec], after: &[AcctSpec]) {
     let (res, _log) = ans.split_once(" cpis=").unwrap_or((ans, "-"));
+    // a cached cleanup whose cache entry was never filled must be reported and move nothing
+    if !cache_hit {
+        let lam = |s: &[AcctSpec]| s.iter().map(|a| a.lamports).collect::<Vec<_>>();
+        if !res.starts_with("err:") || lam(before) != lam(after) {
+            rec.fail("cleanup_uses_unfilled_cache", &format!("{l} -> {ans}"));
+        }
+        return;
+    }
     if total(before) >= 1u128 << 64 {
         return; // outside the property's quantifier
     }
@@ -740,7 +814,8 @@ pub fn run_case(rec: &mut Recorder, header: &str, lines: &[String]) {
     for l in lines {
         let is_init = l.starts_with("init ");
         let is_clean = l.starts_with("clean ");
-        let before = if is_init || is_clean { Some(case.snapshot()) } else { None };
+        let is_set = l.starts_with("set ");
+        let before = if is_init || is_clean || is_set { Some(case.snapshot()) } else { None };
         let ans = exec_line(&mut case, l);
         rec.op(l, &ans);
         if let Some(before) = before {
@@ -748,14 +823,18 @@ pub fn run_case(rec: &mut Recorder, header: &str, lines: &[String]) {
                 let after = case.snapshot();
                 let other = case.funder.as_ref().map(|(i, _)| before[*i].key);
                 let head = ans.split(" cpis=").next().unwrap_or("").to_string();
-                rec.bump(&format!("{}:{}", if is_init { "init" } else { "clean" }, head));
-                if is_init {
+                rec.bump(&format!("{}:{}", if is_init { "init" } else if is_set { "set" } else { "clean" }, head));
+                if is_set {
+                    oracle_set(rec, case.rent, l, &ans, &before, &after);
+                } else if is_init {
                     // cached funder: the payer is the cached one (same declared account)
                     let no_funder = l.contains(" cached ") && !case.cache_funder;
                     let funder_seeded = matches!(case.funder, Some((_, FunderObj::Seeded(_))));
                     oracle_init(rec, case.rent, other, funder_seeded, no_funder, l, &ans, &before, &after);
                 } else {
-                    oracle_clean(rec, case.rent, other, l, &ans, &before, &after);
+                    let funder_op = l.contains(" normalize ") || l.contains(" receive ");
+                    let cache_hit = !l.contains(" cached ") || (if funder_op { case.cache_funder } else { case.cache_recipient });
+                    oracle_clean(rec, case.rent, other, cache_hit, l, &ans, &before, &after);
                 }
                 if ans.contains("cpis=") && !ans.ends_with("cpis=-") || ans.starts_with("err") || ans.starts_with("panic") || before != after {
                     nontrivial = true;
@@ -1040,7 +1119,40 @@ fn c13_case(id: usize, rng: &mut Rng, rent: (u64, u64), ty: &str, op: &str, bal:
     (header, lines)
 }
 
-const C13_RULE: &str = "grid: balance (0, 1, min-1, min, min+1, 2*min+3, 2^64-1-others) x data size (W, W+1, 100, 10000; borsh: W+12.. ) x 3 rent parameter sets x funder/recipient (explicit argument, context cache, missing cache, wrong cache filled) x plain / seeded funder x cleanup argument (Normalize, Refund, Receive, Close) x Account / BorshAccount (with and without a changed value), each followed by the same cleanup again; plus PRNG-drawn mixes with poor / unsigned funders. A case is non-trivial when a clean op issued a CPI, returned an error / panicked, or changed the world; distinct by case text hash.";
+/// A derived-set case: funder and recipient both cached by the derive-generated validation.
+fn c13_set_case(id: usize, rng: &mut Rng, rent: (u64, u64), op: &str, order: &str, bal: usize, size: usize, twist: usize) -> (String, Vec<String>) {
+    let mut lines = vec![format!("rent {} {}", rent.0, rent.1)];
+    let mut tdata = if twist == 4 { vec![9u8; 8] } else { DISC_ZC16.to_vec() };
+    tdata.extend(rng.bytes(size.saturating_sub(W)));
+    let rmin = rent_min(rent, tdata.len());
+    let (f_lam, r_lam, by_lam) = (5_000_000_000u64, 1_000u64, 777u64);
+    let tlam: u64 = match bal {
+        0 => 0,
+        1 => 1,
+        2 => rmin.saturating_sub(1),
+        3 => rmin,
+        4 => rmin + 1,
+        5 => rmin * 2 + 3,
+        _ => u64::MAX - f_lam - r_lam - by_lam,
+    };
+    let fkey = key(id as u64 * 4);
+    let rkey = if twist == 1 { fkey } else { key(id as u64 * 4 + 3) };
+    let tkey = key(id as u64 * 4 + 1);
+    lines.push(acct_line(&fkey, f_lam, &SYS, &[], twist != 2, true));
+    if twist != 1 {
+        lines.push(acct_line(&rkey, r_lam, &SYS, &[], false, twist != 3));
+    }
+    lines.push(acct_line(&tkey, tlam, &PROGRAM_ID, &tdata, false, true));
+    lines.push(acct_line(&key(id as u64 * 4 + 2), by_lam, &THIRD_ID, &[7, 7, 7], false, true));
+    let set = format!("set {order} {op} {} {} {}", khex(&fkey), khex(&rkey), khex(&tkey));
+    lines.push(set.clone());
+    lines.push("world".into());
+    lines.push(set);
+    lines.push("world".into());
+    (format!("case {id} c13 set {order} {op} bal={bal} size={size} twist={twist} rent={}x{}", rent.0, rent.1), lines)
+}
+
+const C13_RULE: &str = "grid: balance (0, 1, min-1, min, min+1, 2*min+3, 2^64-1-others) x data size (W, W+1, 100, 10000; borsh: W+12.. ) x 3 rent parameter sets x funder/recipient (explicit argument, context cache, missing cache, wrong cache filled) x plain / seeded funder x cleanup argument (Normalize, Refund, Receive, Close) x Account / BorshAccount (with and without a changed value), each followed by the same cleanup again; derived account sets that cache BOTH a funder and a distinct recipient through the derive-generated validation, in both declaration orders (funder first / recipient first), x the four cached cleanup arguments x balances x sizes (plus funder == recipient, unsigned funder, read-only recipient, wrong discriminant); plus PRNG-drawn mixes with poor / unsigned funders. A case is non-trivial when a clean op issued a CPI, returned an error / panicked, or changed the world; distinct by case text hash.";
 
 pub fn run_c13(args: &Args) {
     let mut rec = Recorder::new(C13_RULE);
@@ -1072,6 +1184,25 @@ pub fn run_c13(args: &Args) {
             }
         }
     }
+    for rent in RENTS {
+        for op in ["normalize", "refund", "receive", "close"] {
+            for order in ["fr", "rf"] {
+                for bal in 0..=6 {
+                    for size in [W, 24, 100] {
+                        id += 1;
+                        let (h, l) = c13_set_case(id, &mut rng, rent, op, order, bal, size, 0);
+                        run_case(&mut rec, &h, &l);
+                        rec.sample_current(4);
+                    }
+                }
+                for twist in 1..=4 {
+                    id += 1;
+                    let (h, l) = c13_set_case(id, &mut rng, rent, op, order, 1 + twist, 24, twist);
+                    run_case(&mut rec, &h, &l);
+                }
+            }
+        }
+    }
     let n = if thorough { 60000 } else { 1200 };
     for _ in 0..n {
         id += 1;
@@ -1079,7 +1210,11 @@ pub fn run_c13(args: &Args) {
         let ty = *rng.pick(&["zc16", "borsh"]);
         let op = *rng.pick(&["normalize", "refund", "receive", "close"]);
         let size = if ty == "borsh" { W + 12 + rng.below(200) as usize } else { rng.below(300) as usize };
-        let (h, l) = c13_case(id, &mut rng.fork(), rent, ty, op, rng.below(8) as usize, size, rng.below(4) as usize, rng.chance(1, 3), rng.below(4) as usize);
+        let (h, l) = if rng.chance(1, 5) {
+            c13_set_case(id, &mut rng.fork(), rent, op, if rng.chance(1, 2) { "fr" } else { "rf" }, rng.below(7) as usize, W + rng.below(120) as usize, rng.below(5) as usize)
+        } else {
+            c13_case(id, &mut rng.fork(), rent, ty, op, rng.below(8) as usize, size, rng.below(4) as usize, rng.chance(1, 3), rng.below(4) as usize)
+        };
         run_case(&mut rec, &h, &l);
         rec.sample_current(5);
     }
